@@ -716,3 +716,55 @@ func morePrefixCases(r *prng.R) []Case {
 	}
 	return out
 }
+
+// boundaryCases: DETERMINISTIC exact-boundary truncations of the other length-prefixed
+// decoders (independent of the run's seed): every prefix of a valid key of every key format,
+// every prefix of every entry of a small version-1 proof, every prefix of a message frame.
+func boundaryCases() []Case {
+	var out []Case
+	r := prng.New(0xb0d)
+	for fi, sp := range kfSpecs {
+		b := []byte{sp.prefix}
+		for _, sz := range sp.sizes {
+			if sz < 0 {
+				sz = 3
+			}
+			b = append(b, r.Bytes(sz)...)
+		}
+		if fi == 2 {
+			copy(b[9:17], []byte{0x80, 0, 0, 0, 0, 0, 0, 0})
+		}
+		for cut := 0; cut <= len(b); cut++ {
+			for _, nv := range []int{len(sp.sizes), len(sp.sizes) / 2} {
+				out = append(out, Case{Kind: "keyformat", Fmt: fi, NVals: nv, Data: hex.EncodeToString(b[:cut]), Origin: "boundary"})
+			}
+		}
+	}
+	// a small version-1 proof: internal node (leaf, left = hash, right = nil); each entry cut at every length
+	leaf := &node.LeafNode{Key: r.Bytes(2), Value: r.Bytes(3)}
+	lb, _ := leaf.CompactMarshalBinaryV1()
+	in := &node.InternalNode{LabelBitLength: 12, Label: r.Bytes(2), Clean: true}
+	ib, _ := in.CompactMarshalBinaryV1()
+	es := [][]byte{append([]byte{1}, ib...), append([]byte{1}, lb...), append([]byte{2}, r.Bytes(32)...), nil}
+	for i, e := range es {
+		for cut := 0; cut < len(e); cut++ {
+			mod := make([][]byte, len(es))
+			copy(mod, es)
+			mod[i] = e[:cut]
+			for _, k := range []string{"walk", "proof"} {
+				out = append(out, Case{Kind: k, V: 1, Entries: hexEntries(mod), Origin: "boundary"})
+			}
+		}
+	}
+	body := cbor.Marshal(&protocol.Message{ID: 1, MessageType: protocol.MessageRequest, Body: protocol.Body{Empty: &protocol.Empty{}}})
+	fr := append(binary.BigEndian.AppendUint32(nil, uint32(len(body))), body...)
+	for cut := 0; cut <= len(fr); cut++ {
+		out = append(out, Case{Kind: "frame", Data: hex.EncodeToString(fr[:cut]), Origin: "boundary"})
+	}
+	for _, d := range []int{-1, 1} { // declared length one off
+		f2 := append([]byte{}, fr...)
+		binary.BigEndian.PutUint32(f2, uint32(len(body)+d))
+		out = append(out, Case{Kind: "frame", Data: hex.EncodeToString(f2), Origin: "boundary"})
+	}
+	return out
+}
